@@ -14,6 +14,7 @@ import Dawgs.Proofs.C01S2Sound
 import Dawgs.Proofs.C01ChainSound
 import Dawgs.Proofs.C01Count
 import Dawgs.Proofs.C01CountHop
+import Dawgs.Proofs.C01Limit
 import Dawgs.Proofs.C01Pred
 import Dawgs.Generated.C02Guard
 namespace Dawgs.C02.Props
@@ -335,7 +336,7 @@ theorem ofCyChain_wf (q : Cy.Query) (s : C01.Ch.Query) (h3 : C01.ofCyChain q = s
   · split at h3
     · cases h3
     · simp only [bind, Option.bind_eq_some_iff, pure] at h3
-      obtain ⟨_, _, _, _, h3⟩ := h3
+      obtain ⟨_, _, _, _, _, _, h3⟩ := h3
       split at h3
       · rename_i hw; cases h3; exact hw
       · cases h3
@@ -447,7 +448,7 @@ theorem tr4_cases (fo fu : C01.S2.Query → Bool) (co cu : C01.Ch.Query → Bool
         cases hsu : s.trWith km (fu s) false with
         | none =>
           exfalso
-          unfold C01.S2.Query.trWith at hso hsu
+          unfold C01.S2.Query.trWith C01.S2.Query.stmtWith at hso hsu
           cases hwf : s.wf <;> simp [hwf] at hso hsu
           cases hka : C01.S2.kindIds? km s.akinds <;> cases hkr : C01.S2.kindIds? km s.rkinds <;> cases hkb : C01.S2.kindIds? km s.bkinds <;>
             cases hpa : C01.S2.predsE km "n0" false (s.preds .a) <;> cases hpr : C01.S2.predsE km "e0" true (s.preds .r) <;>
@@ -487,8 +488,10 @@ theorem tr4_cases (fo fu : C01.S2.Query → Bool) (co cu : C01.Ch.Query → Bool
             | nil => simp [hh] at hso
             | cons h0 hs =>
               simp only [hh] at hso hsu
-              cases hka : C01.S2.kindIds? km s.akinds <;> cases hk0 : C01.Ch.hopKinds km h0 <;> cases hr : C01.Ch.stepCtes km 1 hs <;>
-                simp [hka, hk0, hr, bind, Option.bind] at hso hsu
+              cases hka : C01.S2.kindIds? km s.akinds <;> cases hk0 : C01.Ch.hopKinds km h0 <;>
+                cases hpa : C01.S2.predsE km "n0" false (s.preds (.node 0)) <;> cases hsp : C01.Ch.stepPreds km s 0 <;>
+                cases hr : C01.Ch.stepCtes km s 1 hs <;>
+                simp [hka, hk0, hpa, hsp, hr, bind, Option.bind] at hso hsu
           | some st' =>
             rw [hsu] at hu
             simp only [Option.map_some] at hu
@@ -593,6 +596,88 @@ theorem opt_equiv (fo fu : C01.S2.Query → Bool) (co cu : C01.Ch.Query → Bool
 
 /-- the instance for the model's own direction approximations -/
 theorem opt_equiv_default : C02_full trOpt trUnopt := opt_equiv C01.flipOpt C01.flipUnopt (fun _ => false) (fun _ => false) (fun _ => false) (fun _ => false)
+
+/-! ### limit pushdown on the proved fragment (stage S2L of C01: one hop, LIMIT k, no ORDER BY, no SKIP)
+
+The two variants no longer return the same bag: without ORDER BY, `LIMIT k` keeps whichever k rows the scan delivers first, and the two
+variants may scan in different join orders. What IS preserved — and all openCypher promises for such a query — is stated by `CutEquiv`. -/
+
+/-- equality of client-visible values, needed only to TYPE `runTail` (its DISTINCT branch, which the guard excludes) -/
+local instance : BEq RVal := ⟨RVal.beq⟩
+
+/-- two results of a `LIMIT k` query without ORDER BY are equivalent when both are sub-bags of the rows of the same base query and both have
+exactly min(k, number of base rows) rows -/
+def CutEquiv (k : Nat) (full xs ys : List (List RVal)) : Prop :=
+  SubBag xs full ∧ SubBag ys full ∧ xs.length = min k full.length ∧ ys.length = min k full.length
+
+/-- the code's guard on the shapes of the fragment: the pushdown fires on the hop with LIMIT, and on nothing else of the fragment (no LIMIT:
+S2b, S2c, S2n; an aggregate in the tail: count over a hop with LIMIT) -/
+theorem limit_guard_on_fragment :
+    tailGuard hopLimitShape = true ∧ tailGuard hopShape = false ∧ tailGuard hopCountLimitShape = false ∧
+    tailGuard { hopLimitShape with hasSkip := true } = false ∧ tailGuard { hopLimitShape with hasSort := true } = false ∧
+    tailGuard { hopLimitShape with distinct := true } = false := by decide
+
+/-- on the shape of stage S2L the tail is: project every source row, keep the first k -/
+theorem runTail_hopLimit {α β : Type} [BEq β] (p : α → Bool) (f : α → β) (agg : List β → List β) (le : β → β → Bool) (skip k : Nat) (rows : List α) :
+    runTail hopLimitShape p f agg le skip k rows = (rows.map f).take k := rfl
+
+/-- `trVariantL` answers with the S2L statements (LIMIT pushed into the frame iff optimised) where the query has the S2L reading — the same
+reading for both variants — and like `trVariant` elsewhere -/
+theorem trVariantL_cases (fo fu : C01.S2.Query → Bool) (co cu : C01.Ch.Query → Bool) (no nu : C01.S2n.Query → Bool) (km : KindMap) (q : Cy.Query)
+    (so su : Stmt) (po pu : List (String × Val))
+    (ho : trVariantL fo co no true km q = some (so, po)) (hu : trVariantL fu cu nu false km q = some (su, pu)) :
+    (trVariant fo co no true km q = some (so, po) ∧ trVariant fu cu nu false km q = some (su, pu)) ∨
+    (∃ s : C01.S2L.Query, s.toCy = q ∧ s.trWith km (fo s.base) true true = some so ∧ s.trWith km (fu s.base) false false = some su ∧ po = [] ∧ pu = []) := by
+  rcases C01.Proofs.tr6_some fo co no true true true km q so po ho with ⟨hn, h5⟩ | ⟨s, hs, hq, hst, hp⟩
+  · rcases C01.Proofs.tr6_some fu cu nu false false false km q su pu hu with ⟨_, h5'⟩ | ⟨s', hs', _⟩
+    · exact Or.inl ⟨h5, h5'⟩
+    · rw [hn] at hs'; cases hs'
+  · rcases C01.Proofs.tr6_some fu cu nu false false false km q su pu hu with ⟨hn', _⟩ | ⟨s', hs', _, hst', hp'⟩
+    · rw [hn'] at hs; cases hs
+    · rw [hs] at hs'; cases hs'
+      exact Or.inr ⟨s, hq, hst, hst', hp, hp'⟩
+
+/-- `opt_equiv_limit`: LIMIT PUSHDOWN on the proved fragment. For every graph with `GraphOK2`, every S2L query (one directed hop, optional
+WHERE of single-variable conjuncts, LIMIT k, no ORDER BY / SKIP), every join order `fo` / `fu` of the two variants, the optimised statement
+(frame pruned, LIMIT on the frame AND on the statement) and the unoptimised one (complete frame, LIMIT on the statement only): whenever both
+evaluate, the base query (no LIMIT) has a reference result `r` and
+  (1) the two row lists are `CutEquiv`: sub-bags of the rows of `r`, each of exactly min(k, |r|) rows;
+  (2) each is the tail of `runTail` on the guard's shape over the frame rows — the optimised one over the frame CUT to k rows, the
+      unoptimised one over the whole frame — so `limit_pushdown_preserves` applies literally;
+  (3) if both variants picked the same join order, the two row lists are EQUAL (same rows, same order). -/
+theorem opt_equiv_limit (km : KindMap) (g : Graph) (hok : GraphOK2 km g) (s : C01.S2L.Query) (fo fu : Bool) (so su : Stmt)
+    (ho : s.trWith km fo true true = some so) (hu : s.trWith km fu false false = some su)
+    (to tu : Table) (hto : Sql.eval (encode km g) so [] = .ok to) (htu : Sql.eval (encode km g) su [] = .ok tu) :
+    ∃ r, Cy.eval .none g s.base.toCy = .ok r ∧
+      CutEquiv s.k (cyRows g km r) (sqlRows to) (sqlRows tu) ∧
+      sqlRows to = runTail hopLimitShape (fun _ => true) (rowOf2 km g s.base) id (fun _ _ => true) 0 s.k ((hopM g s.base fo).take s.k) ∧
+      sqlRows tu = runTail hopLimitShape (fun _ => true) (rowOf2 km g s.base) id (fun _ _ => true) 0 s.k (hopM g s.base fu) ∧
+      (fo = fu → sqlRows to = sqlRows tu) := by
+  obtain ⟨r, n1, rows1, hr, hb1, hrows1, hperm1, hsub1, hlen1⟩ := C01.Proofs.s2l_sound km g hok s fo true true so ho
+  obtain ⟨r', n2, rows2, hr', hb2, hrows2, _, hsub2, hlen2⟩ := C01.Proofs.s2l_sound km g hok s fu false false su hu
+  have e1 : to = ⟨n1, rows1⟩ := by
+    rcases hb1 with h | ⟨u, h⟩
+    · rw [h] at hto; cases hto; rfl
+    · rw [h] at hto; cases hto
+  have e2 : tu = ⟨n2, rows2⟩ := by
+    rcases hb2 with h | ⟨u, h⟩
+    · rw [h] at htu; cases htu; rfl
+    · rw [h] at htu; cases htu
+  subst e1 e2
+  rw [hr] at hr'; cases hr'
+  have hlen : (cyRows g km r).length = r.2.length := by simp [cyRows]
+  refine ⟨r, hr, ⟨hsub1, hsub2, ?_, ?_⟩, ?_, ?_, ?_⟩
+  · rw [hlen]; simpa [sqlRows] using hlen1
+  · rw [hlen]; simpa [sqlRows] using hlen2
+  · rw [limit_pushdown_preserves hopLimitShape limit_guard_on_fragment.1, runTail_hopLimit, hrows1, List.map_take]
+  · rw [runTail_hopLimit, hrows2, List.map_take]
+  · intro hf; subst hf; rw [hrows1, hrows2]
+
+/-- the instance `limit_pushdown_preserves` gives on this stage, spelled out: cutting the frame first does not change the tail's rows -/
+theorem limit_pushdown_on_hop (km : KindMap) (g : Graph) (s : C01.S2L.Query) (flip : Bool) :
+    runTail hopLimitShape (fun _ => true) (rowOf2 km g s.base) id (fun _ _ => true) 0 s.k ((hopM g s.base flip).take s.k) =
+      runTail hopLimitShape (fun _ => true) (rowOf2 km g s.base) id (fun _ _ => true) 0 s.k (hopM g s.base flip) :=
+  limit_pushdown_preserves hopLimitShape limit_guard_on_fragment.1 _ _ _ _ _ _ _
 
 /-- the fragment is inhabited on both branches -/
 def exCountRet : Cy.Projection :=
